@@ -17,7 +17,8 @@ THEOREMS = [P + t for t in (
     "roundtrip_import_string", "roundtrip_import_direct", "readDoc_serialize",
     "roundtrip_graphml_doc", "roundtrip_json_doc", "roundtrip_json_counterexample",
     "addGraph_extract", "addGraphDirect_extract", "extract_spec",
-    "reserialize_stable_partial", "copy_renaming_injective",
+    "validates_after_import", "dAddGraphDirect_extract", "dAddGraph_extract", "reserialize_stable_string", "reserialize_stable_direct", "serializeG_copy", "toNeo4j_relabel", "toJSON_copy",
+    "copy_renaming_injective",
     "import_frame_string", "import_frame_direct", "labels_markup", "classKey_spec",
     "mixed_graph_ids_rejected", "iter_idem", "iterFrom_map",
 )]
@@ -35,6 +36,10 @@ TRUSTED_BASE = [
     "the store is loaded into the driver as graphs.nodes(data=True) / graphs.edges(data=True); the model's edge list is a global "
     "insertion order, and loading the iteration order instead is behaviourally equivalent for extraction (checked by the whole-store "
     "dump comparison after every import)",
+    "the disjoint store (NetworkXGraphStorageDisjoint: add_graph skip-if-present, add_graph_direct, defaultdict extraction, per-graph "
+    "numbering from 1) and validate_graph (shared store; json.loads verdicts passed in by the harness, JSON_PROPERTY_NAMES read from the "
+    "repo each run) are hand mirrors tied by the correspondence; the Lean theorems are stated for the shared store, the disjoint "
+    "flavour's round trip is differential only",
     "Python == between GraphID values is modelled by structural equality (1 == True == 1.0 coincidences are not generated)",
 ]
 ASSUMPTIONS = [
@@ -68,19 +73,19 @@ def make_scenario(rng, ctx, idx, topo_share=0.2):
         else:
             graphs.append({"kind": "raw", "gid": "g-%d-%d" % (idx, k),
                            "spec": L.gen_raw_spec(rng, maxlen=maxlen, floats=rng.random() < 0.15)})
-    return {"graphs": graphs, "target": rng.randrange(n)}
+    return {"graphs": graphs, "target": rng.randrange(n), "disjoint": rng.random() < 0.35}
 
 
 def build_scenario(sc):
     """-> (impl, [graph ids])"""
-    im = L.Impl()
+    im = L.Impl(disjoint=sc.get("disjoint", False))
     gids = []
     for g in sc["graphs"]:
         if g["kind"] == "raw":
             L.build_raw(im.graph(g["gid"]), g["spec"])
             gids.append(g["gid"])
         else:
-            t = L.gen_topology(random.Random("C01/topo/" + g["seed"]), g["flavour"], g.get("maxlen", 24))
+            t = L.gen_topology(random.Random("C01/topo/" + g["seed"]), g["flavour"], g.get("maxlen", 24), importer=im.imp)
             gids.append(t.graph_model.graph_id)
     return im, gids
 
@@ -94,6 +99,29 @@ def nontrivial_graph(im, gid):
             if isinstance(v, str) and not v.isalnum() and v != "":
                 return True
     return False
+
+
+def validate_step(im, gid, lines, expect, res, meta):
+    """validate_graph() on the shared store against the model (json.loads verdicts are passed in)"""
+    if im.disjoint:
+        return
+    import json as _j
+    from fim.graph.abc_property_graph_constants import ABCPropertyGraphConstants as K
+    names = list(K.JSON_PROPERTY_NAMES)
+    oks = set()
+    for _, d in im.st.graphs.nodes(data=True):
+        for k in names:
+            v = d.get(k)
+            if isinstance(v, str):
+                try:
+                    _j.loads(v)
+                    oks.add(v)
+                except _j.JSONDecodeError:
+                    pass
+    r = attempt(lambda: im.graph(gid).validate_graph())
+    lines.append(L.dumps(["validate", L.val(gid), names, sorted(oks)]))
+    expect.append((r, dict(meta, op="validate")))
+    res.count("op:validate:" + ("ok" if r[0] == "ok" else r[1]))
 
 
 def attempt(fn):
@@ -110,6 +138,7 @@ def run_scenario_corr(sc, res, lines, expect, malformed_rng=None):
     im, gids = build_scenario(sc)
     try:
         tgt = gids[sc["target"]]
+        px = im.px
         lines.append(L.dumps(im.load_op()))
         expect.append((["ok", None], {"op": "load"}))
         nt = nontrivial_graph(im, tgt)
@@ -123,12 +152,15 @@ def run_scenario_corr(sc, res, lines, expect, malformed_rng=None):
                 if doc is not None:
                     assert doc["fmt"] == fmt and L.doc_simple(doc)
                     if doc.get("extra") or (fmt == "graphml" and doc.get("edgedefault") != "undirected") or \
-                            (fmt == "json" and doc.get("graph") != {}):
+                            (fmt == "json" and doc.get("graph") not in ({}, {"node_default": {}, "edge_default": {}})):
                         raise core.Infra("document has parts the model does not know: %s" % doc.get("extra"))
                 r = ["ok", L.impl_doc_norm(doc)]
-            lines.append(L.dumps(["serialize", L.val(tgt), fmt]))
+            lines.append(L.dumps([px + "serialize", L.val(tgt), fmt]))
             expect.append((r, {"op": "serialize", "fmt": fmt, "scenario": sc}))
-            res.count("op:serialize:" + fmt)
+            res.count("op:%sserialize:%s" % (px, fmt))
+        for gg in gids:
+            validate_step(im, gg, lines, expect, res, {"scenario": sc})
+        validate_step(im, "no-such-graph", lines, expect, res, {"scenario": sc})
         k = 0
         for fmt, text in texts.items():
             if text is None:
@@ -138,21 +170,22 @@ def run_scenario_corr(sc, res, lines, expect, malformed_rng=None):
                 k += 1
                 newid = tgt if policy == "keep" else "copy-%d" % k
                 r = attempt(lambda: L.val(im.import_(entry, text, newid if entry in ("string", "file") else None)))
-                lines.append(L.dumps(["import", entry, doc, L.val(newid)]))
+                lines.append(L.dumps([px + "import", entry, doc, L.val(newid)]))
                 expect.append((r, {"op": "import", "entry": entry, "fmt": fmt, "policy": policy, "scenario": sc}))
-                res.count("op:import:%s:%s:%s" % (fmt, entry, policy))
+                res.count("op:%simport:%s:%s:%s" % (px, fmt, entry, policy))
                 if r[0] == "err":
                     res.count("err:" + r[1])
-                lines.append(L.dumps(["dump"]))
+                lines.append(L.dumps([px + "dump"]))
                 expect.append((["ok", im.dump()], {"op": "dump-after-import", "entry": entry, "fmt": fmt, "policy": policy, "scenario": sc}))
                 if r[0] == "ok":
                     r2 = attempt(lambda: im.serialize(r[1][1], fmt))
                     if r2[0] == "ok":
                         r2 = ["ok", L.impl_doc_norm(L.parse_text(r2[1])) if r2[1] is not None else None]
-                    lines.append(L.dumps(["serialize", r[1], fmt]))
+                    lines.append(L.dumps([px + "serialize", r[1], fmt]))
                     expect.append((r2, {"op": "reserialize", "entry": entry, "fmt": fmt, "policy": policy, "scenario": sc}))
+                    validate_step(im, r[1][1], lines, expect, res, {"entry": entry, "fmt": fmt, "policy": policy, "scenario": sc})
                 if nt:
-                    res.nontrivial.add("%s/%s/%s/%s" % (snap_hash, fmt, entry, policy))
+                    res.nontrivial.add("%s/%s/%s/%s/%s" % (snap_hash, fmt, entry, policy, px))
         if malformed_rng is not None:
             malformed_steps(im, gids, texts, malformed_rng, res, lines, expect, sc)
     finally:
@@ -207,6 +240,7 @@ def edit_text(text, fmt, how, rng):
 
 def malformed_steps(im, gids, texts, rng, res, lines, expect, sc):
     """the separate malformed stream: edited documents and unserialisable graphs"""
+    px = im.px
     for fmt, text in texts.items():
         if text is None:
             continue
@@ -224,10 +258,10 @@ def malformed_steps(im, gids, texts, rng, res, lines, expect, sc):
             entry = rng.choice(L.ENTRIES)
             gid = rng.choice(gids + ["fresh-id"])
             r = attempt(lambda: L.val(im.import_(entry, t2, gid if entry in ("string", "file") else None)))
-            lines.append(L.dumps(["import", entry, doc, L.val(gid)]))
+            lines.append(L.dumps([px + "import", entry, doc, L.val(gid)]))
             expect.append((r, {"op": "import-malformed", "edit": how, "entry": entry, "fmt": fmt, "scenario": sc}))
-            res.count("malformed:%s:%s" % (how, r[0] if r[0] == "ok" else r[1]))
-            lines.append(L.dumps(["dump"]))
+            res.count("malformed:%s%s:%s" % (px, how, r[0] if r[0] == "ok" else r[1]))
+            lines.append(L.dumps([px + "dump"]))
             expect.append((["ok", im.dump()], {"op": "dump-after-malformed", "edit": how, "entry": entry, "fmt": fmt, "scenario": sc}))
     # unserialisable graphs: missing / empty Class, unsupported value, missing NodeID, absent graph
     g = im.graph("bad-graph")
@@ -241,26 +275,30 @@ def malformed_steps(im, gids, texts, rng, res, lines, expect, sc):
             ia = g._find_node(node_id="a")
             ib = g._find_node(node_id="b")
             if v == "noclass-node":
-                del im.st.graphs.nodes[ib]["Class"]
+                del im.nx("bad-graph").nodes[ib]["Class"]
             elif v == "noclass-edge":
-                del im.st.graphs.edges[ia, ib]["Class"]
+                del im.nx("bad-graph").edges[ia, ib]["Class"]
             elif v == "emptyclass":
-                im.st.graphs.nodes[ib]["Class"] = ""
+                im.nx("bad-graph").nodes[ib]["Class"] = ""
             elif v == "none-value":
-                im.st.graphs.nodes[ib]["Name"] = None
+                im.nx("bad-graph").nodes[ib]["Name"] = None
             elif v == "list-value":
-                im.st.graphs.nodes[ib]["Name"] = [1, "x"]
+                im.nx("bad-graph").nodes[ib]["Name"] = [1, "x"]
             elif v == "intclass":
-                im.st.graphs.nodes[ib]["Class"] = 7
+                im.nx("bad-graph").nodes[ib]["Class"] = 7
         lines.append(L.dumps(im.load_op()))
         expect.append((["ok", None], {"op": "load"}))
         for fmt in ("graphml", "json"):
             r = attempt(lambda: im.serialize("bad-graph", fmt))
             if r[0] == "ok":
                 r = ["ok", L.impl_doc_norm(L.parse_text(r[1])) if r[1] is not None else None]
-            lines.append(L.dumps(["serialize", L.val("bad-graph"), fmt]))
-            expect.append((r, {"op": "serialize-malformed", "variant": v, "fmt": fmt}))
-            res.count("malformed:%s:%s:%s" % (v, fmt, "ok" if r[0] == "ok" else r[1]))
+            lines.append(L.dumps([px + "serialize", L.val("bad-graph"), fmt]))
+            expect.append((r, {"op": "serialize-malformed", "variant": v, "fmt": fmt, "disjoint": im.disjoint}))
+            res.count("malformed:%s%s:%s:%s" % (px, v, fmt, "ok" if r[0] == "ok" else r[1]))
+            validate_step(im, "bad-graph", lines, expect, res, {"variant": v})
+            if im.disjoint:
+                lines.append(L.dumps(["ddump"]))
+                expect.append((["ok", im.dump()], {"op": "dump-after-serialize-malformed", "variant": v}))
 
 
 def correspondence(ctx, res):
@@ -453,7 +491,7 @@ def oracle(ctx, res, n=None):
     for topo, i in plan:
         if topo:
             sc = {"graphs": [{"kind": "topo", "seed": "o/%s/%d" % (ctx.seed, i), "flavour": rng.choice(["slice", "slice", "substrate"]),
-                              "maxlen": 24 if not ctx.thorough else 200}], "target": 0}
+                              "maxlen": 24 if not ctx.thorough else 200}], "target": 0, "disjoint": rng.random() < 0.3}
             if rng.random() < 0.5:
                 sc["graphs"].append({"kind": "raw", "gid": "side-%d" % i, "spec": L.gen_raw_spec(rng, maxn=3, maxe=2)})
         else:
